@@ -183,8 +183,27 @@ class ArgsOp(Op):
         return cases
 
 
+class FindCallsOp(Op):
+    """survey.find_indexed_repeat_calls against Model/FindCalls.v: keyword occurrences, parentheses nested to any depth, unclosed calls"""
+    name = "S.find_calls"
+    imports = ["PX.Model.FindCalls"]
+    fn = "fun s => flat_map (fun c => dec (N.of_nat (fst c)) ++ [45%N] ++ dec (N.of_nat (snd c)) ++ [59%N]) (find_calls s)"
+    in_ty = "list N"
+    n_quick, n_thorough = 300, 3000
+
+    def generate(self, rng, n):
+        from pyxform.survey import find_indexed_repeat_calls
+        atoms = ["indexed-repeat(", "indexed-repeat", "(", ")", "(", ")", ",", " ", "${a}", "if(", "max(min(1, 2), 3)", "position(..)", "1", "x", "-repeat(", "indexed", "é"]
+        cases = []
+        for _ in range(n):
+            t = "".join(rng.choice(atoms) for _ in range(rng.randint(0, 14)))
+            exp = "".join(f"{a}-{b};" for a, b in find_indexed_repeat_calls(t))
+            cases.append({"coq": cstr(t), "expected": exp, "desc": {"text": t}, "class": f"calls={exp.count(';')}", "nontrivial": exp != ""})
+        return cases
+
+
 def ops(tier):
-    return [VarReplOp(), CleanOp(), ArgsOp()]
+    return [VarReplOp(), CleanOp(), ArgsOp(), FindCallsOp()]
 
 
 # ---- direct oracle: evaluate every substituted path on real convert() output -------------------------------
@@ -214,7 +233,7 @@ def _check_several_indexed(seed, i):
     depth2 = rng.random() < 0.4
     calls = []
     for _ in range(n):
-        idxarg = rng.choice(["${idx}", "1", "position(..)", "${idx} + 1", "${idx} + ${idx}"])
+        idxarg = rng.choice(["${idx}", "1", "position(..)", "${idx} + 1", "${idx} + ${idx}", "if(${idx} > 0, max(min(1, 2), 3), 1)", "min(max(if(1, (${idx}), 2), 3), 4)"])
         calls.append(f"indexed-repeat(${{a}}, ${{r}}, {idxarg})")
     same_name = rng.random() < 0.35
     if same_name:
